@@ -34,6 +34,8 @@ THEOREMS = ["C37_scale_index_correct", "C37_bq_gemm_eq_dequant_gemm", "C37_packe
 
 def main(ctx):
     ctx.rule = ("BlockQuantizedGemm Float and Int8 modes: every block size in {16,32,64,128,256} x 0..9 (quick) / 0..19 (thorough) "
+                "blocks, LHS rows with whole quantisation blocks forced to zero (first/middle/last/all; a non-finite Int8-mode output is a "
+                "failure), GemmExecutor route also with block sizes 256/512/1024 x 1-2 blocks, "
                 "blocks (K <= 1024) plus seeded random shapes (1-3 LHS rows, 0-39 columns); GemmExecutor + BlockQuantized RHS for "
                 "each f32 kernel: rows/cols around mr/nr, 0..4 blocks or K in {256,512,768}, alpha/beta in {0,1,-1,2}, bias, 5 LHS "
                 "layouts, NaN-prefilled output for beta=0; non-trivial = output non-empty")
